@@ -494,6 +494,7 @@ type CallRule struct {
 }
 
 type LoopSpec struct {
+	Cand  []*Clause // optional invariants: kept only if they hold on entry and are preserved (Houdini)
 	Inv   []*Clause
 	Decr  []*Clause
 	Steps []Stmt
@@ -867,6 +868,10 @@ func parseSpecFile(path string) (*SpecFile, error) {
 					}
 				case "decreases":
 					if err := mk(&ls.Decr, rest, r.line); err != nil {
+						return nil, err
+					}
+				case "candidate":
+					if err := mk(&ls.Cand, rest, r.line); err != nil {
 						return nil, err
 					}
 				case "step":
